@@ -30,6 +30,15 @@ type sharedDynsamplerEntry struct {
 	recorder   *dynsamplerMetricsRecorder
 }
 
+// dynsamplerKey identifies a shared dynsampler: the dataset/environment it belongs to,
+// whether it is the top-level sampler or a downstream sampler of a rules-based sampler,
+// and the sampler type together with its entire configuration.
+type dynsamplerKey struct {
+	scope      string
+	downstream bool
+	definition string
+}
+
 var samplerFactoryMetrics = []metrics.Metadata{
 	{Name: "unique_dynsampler_count", Type: metrics.Gauge, Unit: metrics.Dimensionless, Description: "Number of unique dynsampler-go samplers created"},
 }
@@ -44,12 +53,12 @@ type SamplerFactory struct {
 	mutex     sync.Mutex
 
 	// Shared dynsampler instances and their metrics recorders, keyed identically to avoid N×overcounting
-	sharedDynsamplers map[string]sharedDynsamplerEntry
+	sharedDynsamplers map[dynsamplerKey]sharedDynsamplerEntry
 
 	// Store original GoalThroughputPerSec values for cluster size calculations.
 	// We need this to recalculate goal throughput values when the cluster size
 	// changes, which does not trigger a full config reload.
-	goalThroughputConfigs map[string]int
+	goalThroughputConfigs map[dynsamplerKey]int
 }
 
 func (s *SamplerFactory) updatePeerCounts() {
@@ -78,8 +87,8 @@ func (s *SamplerFactory) updatePeerCounts() {
 
 func (s *SamplerFactory) Start() error {
 	s.peerCount = 1
-	s.sharedDynsamplers = make(map[string]sharedDynsamplerEntry)
-	s.goalThroughputConfigs = make(map[string]int)
+	s.sharedDynsamplers = make(map[dynsamplerKey]sharedDynsamplerEntry)
+	s.goalThroughputConfigs = make(map[dynsamplerKey]int)
 	if s.Peers != nil {
 		s.Peers.RegisterUpdatedPeersCallback(s.updatePeerCounts)
 	}
@@ -91,7 +100,7 @@ func (s *SamplerFactory) Start() error {
 
 func getSharedDynsamplerAndRecorder[ST dynsampler.Sampler, CT any](
 	s *SamplerFactory,
-	dynsamplerKey string,
+	dynsamplerKey dynsamplerKey,
 	prefix string,
 	config CT,
 	create func(config CT) ST,
@@ -111,39 +120,59 @@ func getSharedDynsamplerAndRecorder[ST dynsampler.Sampler, CT any](
 	return dynsamplerInstance, r
 }
 
-// makeDynsamplerKey builds a dynsampler map key with a sorted copy of fieldList so that
-// configs with the same fields in different order always map to the same instance.
-func makeDynsamplerKey(prefix, samplerType string, rate int64, fieldList []string) string {
+// sortedFieldList returns a sorted copy of fieldList so that configs with the same
+// fields in different order always map to the same instance.
+func sortedFieldList(fieldList []string) []string {
 	sorted := make([]string, len(fieldList))
 	copy(sorted, fieldList)
 	slices.Sort(sorted)
-	return fmt.Sprintf("%s:%s:%d:%v", prefix, samplerType, rate, sorted)
+	return sorted
 }
 
-// createSampler creates a sampler with shared dynsamplers based on the config type.
-// A unique dynsampler is created based on a composite key that includes the keyPrefix
-// (dataset/environment), sampler type, and configuration parameters (e.g., sample rate
-// and field list). This ensures that samplers with identical configurations share the
-// same underlying dynsampler instance, guaranteeing consistent sampling decisions across
-// parallel collector workers within a single Refinery instance.
+// makeDynsamplerKey builds a dynsampler map key from the scope the sampler is created
+// for and its canonical configuration (a copy of the config struct whose FieldList is
+// sorted). Every configuration value is part of the key, so two definitions share a
+// dynsampler only if their entire configurations are identical.
+func makeDynsamplerKey(scope string, downstream bool, canonicalConfig any) dynsamplerKey {
+	return dynsamplerKey{scope: scope, downstream: downstream, definition: fmt.Sprintf("%#v", canonicalConfig)}
+}
+
+// createSampler creates a top-level sampler for the dataset/environment keyPrefix.
 func (s *SamplerFactory) createSampler(c any, keyPrefix string) Sampler {
+	return s.createScopedSampler(c, keyPrefix, keyPrefix, false)
+}
+
+// createScopedSampler creates a sampler with shared dynsamplers based on the config type.
+// A unique dynsampler is created based on a composite key that includes the scope
+// (dataset/environment), whether the sampler is a downstream sampler of a rules-based
+// sampler, the sampler type, and its entire configuration. This ensures that samplers
+// with identical configurations share the same underlying dynsampler instance,
+// guaranteeing consistent sampling decisions across parallel collector workers within a
+// single Refinery instance, while different definitions never share one.
+func (s *SamplerFactory) createScopedSampler(c any, keyPrefix string, scope string, downstream bool) Sampler {
 	var sampler Sampler
 
 	switch c := c.(type) {
 	case *config.DeterministicSamplerConfig:
 		sampler = &DeterministicSampler{Config: c, Logger: s.Logger, Metrics: s.Metrics}
 	case *config.DynamicSamplerConfig:
-		dynsamplerKey := makeDynsamplerKey(keyPrefix, "dynamic", c.SampleRate, c.FieldList)
+		canonical := *c
+		canonical.FieldList = sortedFieldList(c.FieldList)
+		dynsamplerKey := makeDynsamplerKey(scope, downstream, canonical)
 		dynsamplerInstance, recorder := getSharedDynsamplerAndRecorder(s, dynsamplerKey, "dynamic", c, createDynForDynamicSampler)
 		sampler = &DynamicSampler{Config: c, Logger: s.Logger, Metrics: s.Metrics, dynsampler: dynsamplerInstance, metricsRecorder: recorder}
 	case *config.EMADynamicSamplerConfig:
-		dynsamplerKey := makeDynsamplerKey(keyPrefix, "emadynamic", int64(c.GoalSampleRate), c.FieldList)
+		canonical := *c
+		canonical.FieldList = sortedFieldList(c.FieldList)
+		dynsamplerKey := makeDynsamplerKey(scope, downstream, canonical)
 		dynsamplerInstance, recorder := getSharedDynsamplerAndRecorder(s, dynsamplerKey, "emadynamic", c, createDynForEMADynamicSampler)
 		sampler = &EMADynamicSampler{Config: c, Logger: s.Logger, Metrics: s.Metrics, dynsampler: dynsamplerInstance, metricsRecorder: recorder}
 	case *config.RulesBasedSamplerConfig:
 		sampler = &RulesBasedSampler{Config: c, Logger: s.Logger, Metrics: s.Metrics, SamplerFactory: s, samplerPrefix: keyPrefix}
 	case *config.TotalThroughputSamplerConfig:
-		dynsamplerKey := makeDynsamplerKey(keyPrefix, "totalthroughput", int64(c.GoalThroughputPerSec), c.FieldList)
+		canonical := *c
+		canonical.FieldList = sortedFieldList(c.FieldList)
+		dynsamplerKey := makeDynsamplerKey(scope, downstream, canonical)
 		dynsamplerInstance, recorder := getSharedDynsamplerAndRecorder(s, dynsamplerKey, "totalthroughput", c, createDynForTotalThroughputSampler)
 		// only track goal throughput config if we need to recalculate it later based on cluster size
 		if c.UseClusterSize {
@@ -153,7 +182,9 @@ func (s *SamplerFactory) createSampler(c any, keyPrefix string) Sampler {
 		}
 		sampler = &TotalThroughputSampler{Config: c, Logger: s.Logger, Metrics: s.Metrics, dynsampler: dynsamplerInstance, metricsRecorder: recorder}
 	case *config.EMAThroughputSamplerConfig:
-		dynsamplerKey := makeDynsamplerKey(keyPrefix, "emathroughput", int64(c.GoalThroughputPerSec), c.FieldList)
+		canonical := *c
+		canonical.FieldList = sortedFieldList(c.FieldList)
+		dynsamplerKey := makeDynsamplerKey(scope, downstream, canonical)
 		dynsamplerInstance, recorder := getSharedDynsamplerAndRecorder(s, dynsamplerKey, "emathroughput", c, createDynForEMAThroughputSampler)
 		// only track goal throughput config if we need to recalculate it later based on cluster size
 		if c.UseClusterSize {
@@ -163,7 +194,9 @@ func (s *SamplerFactory) createSampler(c any, keyPrefix string) Sampler {
 		}
 		sampler = &EMAThroughputSampler{Config: c, Logger: s.Logger, Metrics: s.Metrics, dynsampler: dynsamplerInstance, metricsRecorder: recorder}
 	case *config.WindowedThroughputSamplerConfig:
-		dynsamplerKey := makeDynsamplerKey(keyPrefix, "windowedthroughput", int64(c.GoalThroughputPerSec), c.FieldList)
+		canonical := *c
+		canonical.FieldList = sortedFieldList(c.FieldList)
+		dynsamplerKey := makeDynsamplerKey(scope, downstream, canonical)
 		dynsamplerInstance, recorder := getSharedDynsamplerAndRecorder(s, dynsamplerKey, "windowedthroughput", c, createDynForWindowedThroughputSampler)
 		// only track goal throughput config if we need to recalculate it later based on cluster size
 		if c.UseClusterSize {
@@ -228,7 +261,7 @@ func (s *SamplerFactory) GetDownstreamSampler(
 		os.Exit(1)
 	}
 
-	return s.createSampler(actualConfig, keyPrefix)
+	return s.createScopedSampler(actualConfig, keyPrefix, parentSamplerKey, true)
 }
 
 // When the config changes, all our shared dynsamplers are invalid. This stops and clears
